@@ -766,7 +766,9 @@ fn debug_one(m: &dyn Machine, ms: &MachineSpec, full_n: u32, rep: &mut Report, i
                     if distinct.len() < 4096 {
                         distinct.insert(g.clone());
                     }
-                    if g != want {
+                    // raw identifiers: `r#type` may be labelled "r#type" or "type" (derive(Debug) prints "type")
+                    let raw_names = ms.fields.iter().any(|f| f.name.starts_with("r#"));
+                    if g != want && !(raw_names && g.replace("r#", "") == want) {
                         rep.violation_count += 1;
                         if rep.violations.len() < 40 {
                             let mut v = Violation::new("debug_text", ms, None, trace, expect_text(&want), g);
